@@ -413,6 +413,9 @@ func EndOfLife(rc *core.RunCtx) []core.Goroutine {
 	return core.Leaks()
 }
 
+// BlobHook is the probe's custom-scalar hook (exported for the other scenarios).
+func BlobHook(op, s string) error { return blobHook(op, s) }
+
 func blobHook(op, s string) error {
 	switch {
 	case op == "unmarshal" && s == "BLOB_ERR":
